@@ -143,6 +143,26 @@ def _c20_chain(args):
     return out
 
 
+def _c20_indep(args):
+    """independence of the results of every deriving route (operators, functions, NumPy-dispatched functions and their method forms):
+    two results of the same call on the same operand, one of them mutated, then the operand mutated"""
+    seed, count = args
+    from .. import x_misc
+    fx = common.import_fxpmath()
+    import numpy as np
+    rng = random.Random(seed)
+    out = []
+    for _ in range(count):
+        s = rng.random() < 0.6
+        w = rng.randint(4, 12)
+        f = rng.randint(0, w)
+        lo, hi = ((-(1 << (w - 1)), (1 << (w - 1)) - 1) if s else (0, (1 << w) - 1))
+        codes = [rng.choice([lo, hi, 1, 3, rng.randint(lo, hi)]) for _ in range(4)]
+        for fn in rng.sample(x_misc.INDEP_FNS, 8):
+            out.append(x_misc.observe_indep(fx, np, fn, (s, w, f), codes, rng.random() < 0.4))
+    return [o for o in out if o is not None]
+
+
 def run(chk):
     pid, tier = chk.pid, chk.tier
     # thorough tier: TLC checks the whole (larger) instance; of its transition cover a deterministic sample of at most 300 000
@@ -205,6 +225,9 @@ def run(chk):
     if pid == 'C20':
         n = 640 if tier == 'quick' else 20000
         for part in core.parallel_map(_c20_chain, [(chk.seed * 1000 + i, n // core.NPROC + 1) for i in range(core.NPROC)]):
+            flagrows += part
+        ni = 160 if tier == 'quick' else 4000
+        for part in core.parallel_map(_c20_indep, [(chk.seed * 1000 + 500 + i, ni // core.NPROC + 1) for i in range(core.NPROC)]):
             flagrows += part
     if pid == 'C02':
         # direction B: seeded random programs of public operations on core-domain formats; every returned object is judged as it reports itself
